@@ -18,6 +18,8 @@
 # define VERIF_OBJ_WHOLE(p)		__CPROVER_object_whole(p)
 /* ghost index for "for all k" loop invariants: a global the code never assigns */
 extern size_t verif_gk;
+/* ghost record of the entropy gateway (set only by the contract that replaces rand_bytes) */
+extern int verif_rb_fail; extern unsigned verif_rb_calls; extern const void *verif_rb_buf; extern size_t verif_rb_len;
 #else
 # define VERIF_LOOP_ASSIGNS(...)
 # define VERIF_LOOP_INVARIANT(...)
